@@ -41,6 +41,9 @@ def configs(quick):
         ('fut-15m-d3m', 'futures', '15m', [(0, '3m')], False, False, False, b3),
         ('fut-3m-2sym-fast', 'futures', '3m', [], True, False, True, b3),
         ('fut-1m-2sym-fast', 'futures', '1m', [(1, '3m')], True, False, True, ('minutes', ['U1', 'D2w', 'GU'], 5)),
+        # minutes that close where they opened with BOTH exits of an open position inside their range: which exit fills first is
+        # decided by a rule of thumb about the minute's shape - it must not consult the minute after
+        ('fut-1m-doji', 'futures', '1m', [], False, False, False, ('minutes', ['U1', 'D1', 'DOJI2', 'FLAT'], 5)),
     ]
     if not quick:
         m6 = ('minutes', ['U1', 'D1', 'U2w', 'D2w', 'GU', 'GD', 'DOJI', 'FLAT'], 5)
